@@ -32,7 +32,7 @@ ASSUMPTIONS = [
     "closer to 1 the test PDFs (1-x)^b fall by orders of magnitude within one cell and the envelopes do not apply (seed 13: intrinsic charm at 0.956)",
 ]
 BUDGET = {"quick": {"examples": 1600, "wall": 560, "min_evaluations": 300}, "thorough": {"examples": 25000, "wall": 2400, "min_evaluations": 2000}}
-MANDATORY = {t: ["nontrivial", "clause:refine", "clause:node", "class:fine", "class:coarse", "mode:linear", "sv:on", "pto:2", "scheme:massive", "tmc:on"] for t in ("quick", "thorough")}
+MANDATORY = {t: ["nontrivial", "clause:refine", "clause:node", "class:fine", "class:coarse", "mode:linear", "sv:on", "pto:2", "scheme:massive", "tmc:on", "grid-listed-unsorted"] for t in ("quick", "thorough")}
 SHRINK = {"quick": False, "thorough": True}
 
 
@@ -117,6 +117,9 @@ def cases(draw, tier="quick"):
             for g in cfg["grids"]:
                 g["nlow"], g["nmid"] = min(g["nlow"], 24), min(g["nmid"], 16)
             cfg["fine"] = False
+        # the order in which the card lists the nodes is not part of the grid: the second grid is listed ascending, descending or shuffled
+        cfg["listed"] = draw(st.sampled_from(["ascending", "ascending", "ascending", "descending", "shuffled"]))
+        cfg["shuffle_seed"] = draw(st.integers(0, 10**6))
         cfg["pdf"] = {}
         for pid in pdfs.ALL:
             cfg["pdf"][str(pid)] = [round(draw(st.floats(0.2, 2.0)), 3), round(draw(st.floats(-0.3, 0.6)), 3), round(draw(st.floats(2.5, 5.0)), 3), round(draw(st.floats(-0.5, 2.0)), 3), 0.0]
@@ -155,14 +158,24 @@ def check_case(case):
         if cl == "refine":
             pdf = pdfs.SmoothPDF(case["pdf"], q2dep=False)
             preds = []
-            for g in case["grids"]:
+            for ig, g in enumerate(case["grids"]):
                 grid = make_grid(g["nlow"], g["nmid"], g["xmin"])
+                listed = case.get("listed", "ascending") if ig == 1 else "ascending"
+                if listed == "descending":
+                    grid = grid[::-1]
+                elif listed == "shuffled":
+                    import random
+
+                    random.Random(case["shuffle_seed"]).shuffle(grid)
+                if listed != "ascending":
+                    v.label("grid-listed-unsorted")
                 o = copy.deepcopy(ob)
                 o["interpolation_xgrid"] = grid
                 o["interpolation_polynomial_degree"] = g["degree"]
                 o["interpolation_is_log"] = g["log"]
-                res = run.run(th, o)[name][0]
-                preds.append(contract(res, grid, pdf, kin["Q2"]))
+                out = run.run(th, o)
+                # the prediction is formed as a user forms it: PDF values at the nodes the output records
+                preds.append(contract(out[name][0], [float(x) for x in out["xgrid"]["grid"]], pdf, kin["Q2"]))
             fine = case["fine"]
             v.label("class:fine" if fine else "class:coarse")
             if not all(g["log"] for g in case["grids"]):
